@@ -79,7 +79,7 @@ theorem nameString_eq (t v : Option Ident) : nameString t v = Spec.fullName t v 
 theorem toIdent_eq_effName (c : NameCfg) (own : Ident) : c.toIdent own = Spec.effName c own := by
   cases c <;> rfl
 
-theorem arms_get (tname : Option Ident) : ∀ (vs : List DbgVariant) (as : List DbgArm), arms tname vs = .ok as →
+theorem dbg_arms_get (tname : Option Ident) : ∀ (vs : List DbgVariant) (as : List DbgArm), arms tname vs = .ok as →
     as.length = vs.length ∧ ∀ (k : Nat) (v : DbgVariant), vs[k]? = some v → ∃ a, arm tname v = .ok a ∧ as[k]? = some a := by
   intro vs
   induction vs with
@@ -104,7 +104,7 @@ theorem arms_get (tname : Option Ident) : ∀ (vs : List DbgVariant) (as : List 
         | succ k => simp at hk; simpa using hg k v' hk
 
 /-- One accepted arm makes exactly the calls of the effective shape of a value of its variant. -/
-theorem arm_correct {V : Type} (tname : NameCfg) (ename : Ident) (vs : List DbgVariant) (k : Nat)
+theorem dbg_arm_correct {V : Type} (tname : NameCfg) (ename : Ident) (vs : List DbgVariant) (k : Nat)
     (v : DbgVariant) (hv : v.WF) (hk : vs[k]? = some v)
     (a : DbgArm) (ha : arm (tname.toIdent ename) v = .ok a)
     (xs : List V) (hx : xs.length = v.fields.length) :
@@ -190,7 +190,7 @@ theorem debug_correct {V : Type} (t : DbgType) (ht : t.WF) (bd : DbgBody) (hbd :
     | error e => simp [has] at hbd
     | ok as =>
       simp only [has] at hbd
-      obtain ⟨hlen, hget⟩ := arms_get _ vs as has
+      obtain ⟨hlen, hget⟩ := dbg_arms_get _ vs as has
       obtain ⟨arma, harma, hasa⟩ := hget ka va hva
       cases as with
       | nil => simp at hasa
@@ -198,7 +198,7 @@ theorem debug_correct {V : Type} (t : DbgType) (ht : t.WF) (bd : DbgBody) (hbd :
         simp only at hbd
         cases hbd
         simp only [Sem.shapeOf, hasa, Sem.variantsOfDbg, hva]
-        exact arm_correct tname ename vs ka va (ht va (List.mem_of_getElem? hva)) hva arma harma xs hla
+        exact dbg_arm_correct tname ename vs ka va (ht va (List.mem_of_getElem? hva)) hva arma harma xs hla
 
 /-- The printed text is the builders' output for the effective shape, in both formatter modes. -/
 theorem debug_output {V : Type} (ops : DbgOps V) (t : DbgType) (ht : t.WF) (bd : DbgBody)
